@@ -12,9 +12,12 @@
    container, (b) the raw slot reading is the live prefix, (c) the world is returned as is.
 
    WIDTH / PRECISION / FILL / SIGN FLAGS.  [display_map] / [display_set] / [debug_*] take no
-   formatter flags: "{:>10}", "{:.3}" ... are outside every statement here (the crate's impls
-   pass the formatter through to the elements; the runtime oracle FMT_SHAPE exercises flags
-   for Debug).  The only flag modelled is '#' (alternate), the [alt] argument.
+   formatter flags: "{:>10}", "{:.3}" ... are outside every statement here.  In the crate,
+   Display for Set calls k.fmt(f) (the caller's flags are forwarded to every element) while
+   Display for Map uses write!(f, "{k}: {v}") (the caller's flags are discarded); the flagless
+   model cannot express that asymmetry.  Debug goes through core::fmt's builders, which hand the
+   formatter to the elements; the runtime oracle FMT_SHAPE exercises flags for Debug.  The only
+   flag modelled is '#' (alternate), the [alt] argument.
 
    PART 1  the alternate form {:#?} characterised (PadAdapter), newline-free and general.
    PART 2  Debug of every borrowing / owning iterator kind down to the rendered string.
@@ -1465,3 +1468,375 @@ Lemma serde_overflow_set_exec debug sc (src : map key unit) cp s lg :
      (fun _ _ => False) (fun _ => True)
      {| cb := s; log := lg; self := new_map cp |}.
 Proof. intros. rewrite exec_elems_eq. apply serde_overflow_set; assumption. Qed.
+
+(* ======================================================================== *)
+(* ROUND 2                                                                   *)
+(* ======================================================================== *)
+Require Import Proofs.ExecUniq Proofs.MoreEq.
+
+(* ---- C19 (4): Drain's Debug returns the world it was given, for EVERY cursor,
+        every world (well formed or not) ---- *)
+Lemma dbg_range_world {V} (dk : key -> str) (dv : V -> str) alt c (w : world key V cstate) :
+  dbg_range dk dv alt c w = Ok (r_str (debug_pairs dk dv alt (range_list (self w) c))) w.
+Proof. reflexivity. Qed.
+
+(* session level: drain(), n calls of next(), then format: in the state w1 reached
+   (container already emptied by drain(), first n entries moved out) formatting
+   returns the rendering of the entries not yet yielded AND w1 itself *)
+Lemma drain_debug_rest_render_at {V} (dk : key -> str) (dv : V -> str) alt n (w : world key V cstate) :
+  WF (self w) ->
+  wp (c <- drain ;; drain_run n c)
+     (fun r w1 =>
+        fst r = firstn n (Spec.elems (self w)) /\
+        len (self w1) = 0 /\ cap (self w1) = cap (self w) /\ log w1 = log w /\
+        dbg_range dk dv alt (snd r) w1 =
+        Ok (r_str (debug_pairs dk dv alt (skipn n (Spec.elems (self w))))) w1)
+     (fun _ => False) w.
+Proof.
+  intros Hw.
+  eapply wp_mono; [apply wp_conj; [apply drain_debug_rest; exact Hw | apply drain_run_strong; exact Hw] | |];
+    cbn beta; [|tauto].
+  intros r w1 [(H & _ & Hr) (_ & _ & _ & _ & Hc & Hl & Hz)].
+  split; [exact Hr|]. split; [exact Hz|]. split; [exact Hc|]. split; [exact Hl|].
+  rewrite dbg_range_world, H. reflexivity.
+Qed.
+
+(* ---- C20: the decoded container, both directions of ==, the interpreter's step ---- *)
+Definition dec_rel (p p' : key * vobj) : Prop :=
+  kcls (fst p') = kcls (fst p) /\ vdat (snd p') = vdat (snd p).
+Definition dec_rel_s (p p' : key * unit) : Prop := kcls (fst p') = kcls (fst p).
+
+Lemma Forall2_map_same {A B C} (f : A -> C) (g : B -> C) (R : A -> B -> Prop) l l' :
+  (forall a b, R a b -> g b = f a) -> Forall2 R l l' -> List.map g l' = List.map f l.
+Proof. intros H. induction 1; cbn [List.map]; [reflexivity|]. f_equal; auto. Qed.
+
+(* the visitor under finally_drop, from the fresh container of capacity cp *)
+Lemma serde_decode_map debug sc (src : map key vobj) cp s lg :
+  honest sc -> WF src -> Uniq kcls (Spec.elems src) -> len src <= cp ->
+  wp (finally_drop (env_map sc) (visit_map debug sc (Exec.elems src)))
+     (fun _ w' => WF (self w') /\ cap (self w') = cp /\ len (self w') = len src /\
+                  Forall2 dec_rel (Spec.elems src) (Spec.elems (self w')) /\ log w' = lg)
+     (fun _ => False) {| cb := s; log := lg; self := new_map cp |}.
+Proof.
+  intros Hh Hsrc Hu Hle. rewrite exec_elems_eq. apply EqClone.wp_finally_drop_nopanic.
+  eapply wp_mono; [apply (visit_map_spec debug sc (Spec.elems src) _ Hh) | | intros ? []]; cbn [self log].
+  - apply WF_new.
+  - rewrite elems_new. constructor.
+  - exact Hu.
+  - intros p _. rewrite elems_new. reflexivity.
+  - cbn [len new_map]. rewrite cap_new, (elems_length _ Hsrc). lia.
+  - cbn beta. intros _ w1 (Hw1 & Hc1 & (fresh & He & Hf) & Hlg1).
+    rewrite elems_new in He. cbn [app] in He. rewrite cap_new in Hc1. rewrite <- He in Hf.
+    split; [exact Hw1|]. split; [exact Hc1|]. split; [|split; [exact Hf | exact Hlg1]].
+    rewrite <- (elems_length _ Hw1), <- (Forall2_length_eq _ _ _ Hf). apply elems_length; exact Hsrc.
+Qed.
+
+Lemma serde_decode_set debug sc (src : map key unit) cp s lg :
+  honest sc -> WF src -> Uniq kcls (Spec.elems src) -> len src <= cp ->
+  wp (finally_drop (env_set sc) (visit_seq debug sc (List.map fst (Exec.elems src))))
+     (fun _ w' => WF (self w') /\ cap (self w') = cp /\ len (self w') = len src /\
+                  Forall2 dec_rel_s (Spec.elems src) (Spec.elems (self w')) /\ log w' = lg)
+     (fun _ => False) {| cb := s; log := lg; self := new_map cp |}.
+Proof.
+  intros Hh Hsrc Hu Hle. rewrite exec_elems_eq. apply EqClone.wp_finally_drop_nopanic.
+  eapply wp_mono; [apply (visit_seq_spec debug sc (List.map fst (Spec.elems src)) _ Hh) | | intros ? []];
+    cbn [self log].
+  - apply WF_new.
+  - rewrite elems_new. constructor.
+  - rewrite map_map. exact Hu.
+  - intros p _. rewrite elems_new. reflexivity.
+  - cbn [len new_map]. rewrite cap_new, map_length, (elems_length _ Hsrc). lia.
+  - cbn beta. intros _ w1 (Hw1 & Hc1 & (fresh & He & Hf) & Hlg1).
+    rewrite elems_new in He. cbn [app] in He. rewrite cap_new in Hc1. rewrite <- He in Hf.
+    apply Forall2_map_l in Hf.
+    split; [exact Hw1|]. split; [exact Hc1|]. split; [|split; [exact Hf | exact Hlg1]].
+    rewrite <- (elems_length _ Hw1), <- (Forall2_length_eq _ _ _ Hf). apply elems_length; exact Hsrc.
+Qed.
+
+(* a container related to the source entry by entry (fresh objects, same class,
+   same payload) has pairwise different keys and compares equal to it with the
+   crate's ==, IN BOTH DIRECTIONS, from any world; == changes nothing *)
+Lemma decoded_eq_both_map sc (src m' : map key vobj) (w : world key vobj cstate) :
+  honest sc -> WF src -> WF m' -> Uniq kcls (Spec.elems src) ->
+  Forall2 dec_rel (Spec.elems src) (Spec.elems m') ->
+  Uniq kcls (Spec.elems m') /\
+  exists w1 w2, map_eq (env_map sc) src m' w = Ok true w1 /\ map_eq (env_map sc) m' src w = Ok true w2 /\
+                stable w w1 /\ stable w w2.
+Proof.
+  intros Hh Hsrc Hm Hu Hf. set (veq := fun a b : vobj => N.eqb (vdat a) (vdat b)).
+  assert (Hf' : Forall2 (fun p p' => kcls (fst p') = kcls (fst p) /\ veq (snd p') (snd p) = true)
+                        (Spec.elems src) (Spec.elems m')).
+  { eapply Forall2_impl'; [|exact Hf]. cbn beta. intros a b [H1 H2]. split; [exact H1|].
+    unfold veq. apply N.eqb_eq. exact H2. }
+  destruct (clone_equal kcls veq _ _ Hu Hf') as [Hu' Hb]. split; [exact Hu'|].
+  pose proof (env_map_lawful sc Hh) as HL.
+  destruct (map_eq_run (env_map sc) kcls qcls HL veq (env_map_eqV sc Hh) src m' w Hsrc Hm) as (w1 & H1 & Hs1).
+  destruct (map_eq_run (env_map sc) kcls qcls HL veq (env_map_eqV sc Hh) m' src w Hm Hsrc) as (w2 & H2 & Hs2).
+  rewrite Hb in H1.
+  rewrite <- (map_eq_sym kcls veq (Spec.elems src) (Spec.elems m') Hu Hu'
+                (fun x y => N.eqb_sym (vdat x) (vdat y))), Hb in H2.
+  exists w1, w2. auto.
+Qed.
+
+Lemma decoded_eq_both_set sc (src m' : map key unit) (w : world key unit cstate) :
+  honest sc -> WF src -> WF m' -> Uniq kcls (Spec.elems src) ->
+  Forall2 dec_rel_s (Spec.elems src) (Spec.elems m') ->
+  Uniq kcls (Spec.elems m') /\
+  exists w1 w2, map_eq (env_set sc) src m' w = Ok true w1 /\ map_eq (env_set sc) m' src w = Ok true w2 /\
+                stable w w1 /\ stable w w2.
+Proof.
+  intros Hh Hsrc Hm Hu Hf. set (veq := fun _ _ : unit => true).
+  assert (Hf' : Forall2 (fun p p' => kcls (fst p') = kcls (fst p) /\ veq (snd p') (snd p) = true)
+                        (Spec.elems src) (Spec.elems m')).
+  { eapply Forall2_impl'; [|exact Hf]. cbn beta. intros a b H1. split; [exact H1 | reflexivity]. }
+  destruct (clone_equal kcls veq _ _ Hu Hf') as [Hu' Hb]. split; [exact Hu'|].
+  pose proof (env_set_lawful sc Hh) as HL.
+  destruct (map_eq_run (env_set sc) kcls qcls HL veq (env_set_eqV sc) src m' w Hsrc Hm) as (w1 & H1 & Hs1).
+  destruct (map_eq_run (env_set sc) kcls qcls HL veq (env_set_eqV sc) m' src w Hm Hsrc) as (w2 & H2 & Hs2).
+  rewrite Hb in H1.
+  rewrite <- (map_eq_sym kcls veq (Spec.elems src) (Spec.elems m') Hu Hu' (fun x y => eq_refl)), Hb in H2.
+  exists w1, w2. auto.
+Qed.
+
+(* (2) the round trip with BOTH comparisons: original == decoded and decoded == original *)
+Lemma serde_roundtrip_map_equal_sym debug sc (src : map key vobj) cp s lg :
+  honest sc -> WF src -> Uniq kcls (Spec.elems src) -> len src <= cp ->
+  wp (_ <- finally_drop (env_map sc) (visit_map debug sc (Exec.elems src)) ;;
+      m' <- get_self ;;
+      r1 <- map_eq (env_map sc) src m' ;;
+      r2 <- map_eq (env_map sc) m' src ;;
+      ret (r1, r2))
+     (fun r w' => r = (true, true) /\
+                  WF (self w') /\ len (self w') = len src /\ cap (self w') = cp /\
+                  Uniq kcls (Spec.elems (self w')) /\ log w' = lg)
+     (fun _ => False)
+     {| cb := s; log := lg; self := new_map cp |}.
+Proof.
+  intros Hh Hsrc Hu Hle. apply wp_bind.
+  eapply wp_mono; [apply (serde_decode_map debug sc src cp s lg Hh Hsrc Hu Hle) | | auto]; cbn beta.
+  intros _ w1 (Hw1 & Hc1 & Hl1 & Hf & Hg1). apply wp_bind. apply wp_get_self. apply wp_bind.
+  destruct (decoded_eq_both_map sc src (self w1) w1 Hh Hsrc Hw1 Hu Hf) as (Hu' & w2 & _ & H12 & _ & Hs2 & _).
+  unfold wp at 1. rewrite H12. apply wp_bind.
+  destruct Hs2 as [Hs2 Hlg2].
+  destruct (decoded_eq_both_map sc src (self w1) w2 Hh Hsrc Hw1 Hu Hf) as (_ & _ & w3 & _ & H23 & _ & Hs3).
+  unfold wp at 1. rewrite H23. apply wp_ret. destruct Hs3 as [Hs3 Hlg3].
+  split; [reflexivity|]. rewrite Hs3, Hs2.
+  split; [exact Hw1|]. split; [exact Hl1|]. split; [exact Hc1|]. split; [exact Hu'|]. congruence.
+Qed.
+
+Lemma serde_roundtrip_set_equal_sym debug sc (src : map key unit) cp s lg :
+  honest sc -> WF src -> Uniq kcls (Spec.elems src) -> len src <= cp ->
+  wp (_ <- finally_drop (env_set sc) (visit_seq debug sc (List.map fst (Exec.elems src))) ;;
+      m' <- get_self ;;
+      r1 <- map_eq (env_set sc) src m' ;;
+      r2 <- map_eq (env_set sc) m' src ;;
+      ret (r1, r2))
+     (fun r w' => r = (true, true) /\
+                  WF (self w') /\ len (self w') = len src /\ cap (self w') = cp /\
+                  Uniq kcls (Spec.elems (self w')) /\ log w' = lg)
+     (fun _ => False)
+     {| cb := s; log := lg; self := new_map cp |}.
+Proof.
+  intros Hh Hsrc Hu Hle. apply wp_bind.
+  eapply wp_mono; [apply (serde_decode_set debug sc src cp s lg Hh Hsrc Hu Hle) | | auto]; cbn beta.
+  intros _ w1 (Hw1 & Hc1 & Hl1 & Hf & Hg1). apply wp_bind. apply wp_get_self. apply wp_bind.
+  destruct (decoded_eq_both_set sc src (self w1) w1 Hh Hsrc Hw1 Hu Hf) as (Hu' & w2 & _ & H12 & _ & Hs2 & _).
+  unfold wp at 1. rewrite H12. apply wp_bind.
+  destruct Hs2 as [Hs2 Hlg2].
+  destruct (decoded_eq_both_set sc src (self w1) w2 Hh Hsrc Hw1 Hu Hf) as (_ & _ & w3 & _ & H23 & _ & Hs3).
+  unfold wp at 1. rewrite H23. apply wp_ret. destruct Hs3 as [Hs3 Hlg3].
+  split; [reflexivity|]. rewrite Hs3, Hs2.
+  split; [exact Hw1|]. split; [exact Hl1|]. split; [exact Hc1|]. split; [exact Hu'|]. congruence.
+Qed.
+
+(* ---- replace_with: the register receives what [build] made from a fresh
+        container of the same capacity; the old value is then destroyed (lawful
+        Drop: no panic); the body is returned as given ---- *)
+Lemma replace_with_build {V} (E : env key V query cstate) ck cq (HL : Lawful E ck cq)
+      (build : M key V cstate unit) (body : list N) (w : world key V cstate) (Q : map key V -> Prop) :
+  WF (self w) ->
+  wp build (fun _ w1 => Q (self w1)) (fun _ => False) (with_self w (new_map (cap (self w)))) ->
+  wp (replace_with E build body) (fun r w' => r = body /\ Q (self w')) (fun _ => False) w.
+Proof.
+  intros Hw Hb. unfold replace_with. apply wp_bind. apply wp_get_cap. apply wp_bind.
+  apply wp_swap_self.
+  eapply wp_mono; [exact Hb | | auto]; cbn beta.
+  intros [] w1 HQ. apply wp_bind. apply wp_get_self. apply wp_bind. apply wp_put_self. apply wp_bind.
+  apply wp_swap_self. simp_w.
+  eapply wp_mono; [apply (drop_map_lawful E ck cq HL); simp_w; exact Hw | | auto]; cbn beta.
+  intros [] w2 _. apply wp_ret. simp_w. auto.
+Qed.
+
+Lemma get_m_put_m_same r m c x : get_m r (put_m r m c x) = m.
+Proof. unfold get_m, put_m. destruct (N.eqb r 0); reflexivity. Qed.
+Lemma get_s_put_s_same r m c x : get_s r (put_s r m c x) = m.
+Proof. unfold get_s, put_s. destruct (N.eqb r 2); reflexivity. Qed.
+Lemma xdead_put_m r m c x : xdead (put_m r m c x) = xdead x.
+Proof. unfold put_m. destruct (N.eqb r 0); reflexivity. Qed.
+Lemma xdead_put_s r m c x : xdead (put_s r m c x) = xdead x.
+Proof. unfold put_s. destruct (N.eqb r 2); reflexivity. Qed.
+
+(* (1) + (3) THE STEP OSerde r r' of the interpreter, honest script, every reachable-shaped
+   state (WFx), source with pairwise different keys, target register large enough:
+   - the observation (what the correspondence check compares with the real crate) is
+       1 (returned normally), len src (the length the serializer ANNOUNCED),
+       len src (the number of entries it EMITTED), then the rendering of the new target
+       register and the drop/clone events — "emits exactly len() entries";
+   - the target register afterwards: well formed, same capacity as before, the
+     source's length, pairwise different keys, same (class, payload) view in the
+     same order; it compares equal to the source in both directions from any world;
+   - if r' is another register than r, the source register is literally unchanged;
+   - the interpreter is not dead. *)
+Theorem step_OSerde_ok debug sc r r' x :
+  honest sc -> WFx x -> Uniq kcls (Spec.elems (get_m r x)) -> len (get_m r x) <= cap (get_m r' x) ->
+  let src := get_m r x in
+  let res := step debug sc (OSerde r r') x in
+  let m' := get_m r' (snd res) in
+  (exists lg, fst res = [1%N; nn (len src); nn (len src)] ++ post_m m' ++ events lg) /\
+  WF m' /\ cap m' = cap (get_m r' x) /\ len m' = len src /\ Uniq kcls (Spec.elems m') /\
+  mview m' = mview src /\
+  (forall w : world key vobj cstate, exists w1 w2,
+      map_eq (env_map sc) src m' w = Ok true w1 /\ map_eq (env_map sc) m' src w = Ok true w2 /\
+      stable w w1 /\ stable w w2) /\
+  (~ same_m r' r -> get_m r (snd res) = src) /\
+  xdead (snd res) = false.
+Proof.
+  intros Hh Hx Hu Hle. cbv zeta.
+  assert (Hd : xdead x = false) by apply Hx.
+  pose proof (WFx_get_m r x Hx) as Hsrc. pose proof (WFx_get_m r' x Hx) as Htg.
+  unfold step. rewrite Hd. unfold run_m.
+  set (w0 := {| cb := xcb x; log := []; self := get_m r' x |}).
+  pose proof (replace_with_build (env_map sc) kcls qcls (env_map_lawful sc Hh)
+                (finally_drop (env_map sc) (visit_map debug sc (Exec.elems (get_m r x))))
+                [nn (len (get_m r x)); nn (length (Exec.elems (get_m r x)))] w0
+                (fun m => WF m /\ cap m = cap (get_m r' x) /\ len m = len (get_m r x) /\
+                          Forall2 dec_rel (Spec.elems (get_m r x)) (Spec.elems m)) Htg) as H.
+  assert (Hb : wp (finally_drop (env_map sc) (visit_map debug sc (Exec.elems (get_m r x))))
+                  (fun _ w1 => WF (self w1) /\ cap (self w1) = cap (get_m r' x) /\
+                               len (self w1) = len (get_m r x) /\
+                               Forall2 dec_rel (Spec.elems (get_m r x)) (Spec.elems (self w1)))
+                  (fun _ => False) (with_self w0 (new_map (cap (self w0))))).
+  { eapply wp_mono;
+      [apply (serde_decode_map debug sc (get_m r x) (cap (get_m r' x)) (xcb x) [] Hh Hsrc Hu Hle) | | auto];
+      cbn beta. intros _ w1 (A & B & C & D & _). auto. }
+  specialize (H Hb). unfold wp in H.
+  destruct (replace_with _ _ _ w0) as [body w1|w1|]; [|contradiction|contradiction].
+  destruct H as (-> & Hw1 & Hc1 & Hl1 & Hf). cbn [finish fst snd].
+  rewrite get_m_put_m_same.
+  split.
+  { exists (log w1). rewrite exec_elems_eq, (elems_length _ Hsrc). reflexivity. }
+  split; [exact Hw1|]. split; [exact Hc1|]. split; [exact Hl1|].
+  split; [apply (decoded_eq_both_map sc (get_m r x) (self w1) w0 Hh Hsrc Hw1 Hu Hf)|].
+  split.
+  { unfold mview. apply (Forall2_map_same _ _ dec_rel); [|exact Hf].
+    intros a b [H1 H2]. rewrite H1, H2. reflexivity. }
+  split.
+  { intros w. apply (decoded_eq_both_map sc (get_m r x) (self w1) w Hh Hsrc Hw1 Hu Hf). }
+  split; [intros Hn; apply get_m_put_m_other; exact Hn|].
+  rewrite xdead_put_m. exact Hd.
+Qed.
+
+Theorem step_SSerde_ok debug sc r r' x :
+  honest sc -> WFx x -> Uniq kcls (Spec.elems (get_s r x)) -> len (get_s r x) <= cap (get_s r' x) ->
+  let src := get_s r x in
+  let res := step debug sc (SSerde r r') x in
+  let m' := get_s r' (snd res) in
+  (exists lg, fst res = [1%N; nn (len src); nn (len src)] ++ post_s m' ++ events lg) /\
+  WF m' /\ cap m' = cap (get_s r' x) /\ len m' = len src /\ Uniq kcls (Spec.elems m') /\
+  sview m' = sview src /\
+  (forall w : world key unit cstate, exists w1 w2,
+      map_eq (env_set sc) src m' w = Ok true w1 /\ map_eq (env_set sc) m' src w = Ok true w2 /\
+      stable w w1 /\ stable w w2) /\
+  (~ same_s r' r -> get_s r (snd res) = src) /\
+  xdead (snd res) = false.
+Proof.
+  intros Hh Hx Hu Hle. cbv zeta.
+  assert (Hd : xdead x = false) by apply Hx.
+  pose proof (WFx_get_s r x Hx) as Hsrc. pose proof (WFx_get_s r' x Hx) as Htg.
+  unfold step. rewrite Hd. unfold run_s.
+  set (w0 := {| cb := xcb x; log := []; self := get_s r' x |}).
+  pose proof (replace_with_build (env_set sc) kcls qcls (env_set_lawful sc Hh)
+                (finally_drop (env_set sc) (visit_seq debug sc (List.map fst (Exec.elems (get_s r x)))))
+                [nn (len (get_s r x)); nn (length (Exec.elems (get_s r x)))] w0
+                (fun m => WF m /\ cap m = cap (get_s r' x) /\ len m = len (get_s r x) /\
+                          Forall2 dec_rel_s (Spec.elems (get_s r x)) (Spec.elems m)) Htg) as H.
+  assert (Hb : wp (finally_drop (env_set sc) (visit_seq debug sc (List.map fst (Exec.elems (get_s r x)))))
+                  (fun _ w1 => WF (self w1) /\ cap (self w1) = cap (get_s r' x) /\
+                               len (self w1) = len (get_s r x) /\
+                               Forall2 dec_rel_s (Spec.elems (get_s r x)) (Spec.elems (self w1)))
+                  (fun _ => False) (with_self w0 (new_map (cap (self w0))))).
+  { eapply wp_mono;
+      [apply (serde_decode_set debug sc (get_s r x) (cap (get_s r' x)) (xcb x) [] Hh Hsrc Hu Hle) | | auto];
+      cbn beta. intros _ w1 (A & B & C & D & _). auto. }
+  specialize (H Hb). unfold wp in H.
+  destruct (replace_with _ _ _ w0) as [body w1|w1|]; [|contradiction|contradiction].
+  destruct H as (-> & Hw1 & Hc1 & Hl1 & Hf). cbn [finish fst snd].
+  rewrite get_s_put_s_same.
+  split.
+  { exists (log w1). rewrite exec_elems_eq, (elems_length _ Hsrc). reflexivity. }
+  split; [exact Hw1|]. split; [exact Hc1|]. split; [exact Hl1|].
+  split; [apply (decoded_eq_both_set sc (get_s r x) (self w1) w0 Hh Hsrc Hw1 Hu Hf)|].
+  split.
+  { unfold sview. apply (Forall2_map_same _ _ dec_rel_s); [|exact Hf].
+    intros a b H1. rewrite H1. reflexivity. }
+  split.
+  { intros w. apply (decoded_eq_both_set sc (get_s r x) (self w1) w Hh Hsrc Hw1 Hu Hf). }
+  split; [intros Hn; apply get_s_put_s_other; exact Hn|].
+  rewrite xdead_put_s. exact Hd.
+Qed.
+
+(* the announced prefix alone, in the form the audit asked for *)
+Corollary step_OSerde_emits debug sc r r' x :
+  honest sc -> WFx x -> Uniq kcls (Spec.elems (get_m r x)) -> len (get_m r x) <= cap (get_m r' x) ->
+  exists t, fst (step debug sc (OSerde r r') x) = 1%N :: nn (len (get_m r x)) :: nn (len (get_m r x)) :: t.
+Proof.
+  intros Hh Hx Hu Hle. destruct (step_OSerde_ok debug sc r r' x Hh Hx Hu Hle) as [[lg H] _].
+  rewrite H. eexists. reflexivity.
+Qed.
+Corollary step_SSerde_emits debug sc r r' x :
+  honest sc -> WFx x -> Uniq kcls (Spec.elems (get_s r x)) -> len (get_s r x) <= cap (get_s r' x) ->
+  exists t, fst (step debug sc (SSerde r r') x) = 1%N :: nn (len (get_s r x)) :: nn (len (get_s r x)) :: t.
+Proof.
+  intros Hh Hx Hu Hle. destruct (step_SSerde_ok debug sc r r' x Hh Hx Hu Hle) as [[lg H] _].
+  rewrite H. eexists. reflexivity.
+Qed.
+
+(* (3) as two steps of the interpreter: OSerde r r' with r' another register, then
+   OEq in either direction: the comparison returns normally (1) and answers true (1) *)
+Theorem step_OSerde_then_OEq debug sc r r' x :
+  honest sc -> WFx x -> Uniq kcls (Spec.elems (get_m r x)) -> len (get_m r x) <= cap (get_m r' x) ->
+  ~ same_m r' r ->
+  let x1 := snd (step debug sc (OSerde r r') x) in
+  get_m r x1 = get_m r x /\
+  (exists t, fst (step debug sc (OEq r r') x1) = 1%N :: 1%N :: t) /\
+  (exists t, fst (step debug sc (OEq r' r) x1) = 1%N :: 1%N :: t).
+Proof.
+  intros Hh Hx Hu Hle Hn. cbv zeta.
+  destruct (step_OSerde_ok debug sc r r' x Hh Hx Hu Hle) as (_ & _ & _ & _ & _ & _ & Heq & Hr & Hd).
+  specialize (Hr Hn). split; [exact Hr|].
+  set (x1 := snd (step debug sc (OSerde r r') x)) in *.
+  split; unfold step; rewrite Hd; unfold run_m, bind; rewrite Hr.
+  - destruct (Heq {| cb := xcb x1; log := []; self := get_m r x |}) as (w1 & _ & H1 & _). rewrite H1.
+    cbn [finish fst ret r_bool app]. eexists. reflexivity.
+  - destruct (Heq {| cb := xcb x1; log := []; self := get_m r' x1 |}) as (_ & w2 & _ & H2 & _). rewrite H2.
+    cbn [finish fst ret r_bool app]. eexists. reflexivity.
+Qed.
+
+Theorem step_SSerde_then_SEq debug sc r r' x :
+  honest sc -> WFx x -> Uniq kcls (Spec.elems (get_s r x)) -> len (get_s r x) <= cap (get_s r' x) ->
+  ~ same_s r' r ->
+  let x1 := snd (step debug sc (SSerde r r') x) in
+  get_s r x1 = get_s r x /\
+  (exists t, fst (step debug sc (SEq r r') x1) = 1%N :: 1%N :: t) /\
+  (exists t, fst (step debug sc (SEq r' r) x1) = 1%N :: 1%N :: t).
+Proof.
+  intros Hh Hx Hu Hle Hn. cbv zeta.
+  destruct (step_SSerde_ok debug sc r r' x Hh Hx Hu Hle) as (_ & _ & _ & _ & _ & _ & Heq & Hr & Hd).
+  specialize (Hr Hn). split; [exact Hr|].
+  set (x1 := snd (step debug sc (SSerde r r') x)) in *.
+  split; unfold step; rewrite Hd; unfold run_s, bind; rewrite Hr.
+  - destruct (Heq {| cb := xcb x1; log := []; self := get_s r x |}) as (w1 & _ & H1 & _). rewrite H1.
+    cbn [finish fst ret r_bool app]. eexists. reflexivity.
+  - destruct (Heq {| cb := xcb x1; log := []; self := get_s r' x1 |}) as (_ & w2 & _ & H2 & _). rewrite H2.
+    cbn [finish fst ret r_bool app]. eexists. reflexivity.
+Qed.
